@@ -246,3 +246,43 @@ example :
   ⟨⟨_, rfl, _, rfl, rfl⟩, rfl⟩
 
 end Trion.Asm
+
+namespace Trion.Asm
+open Trion
+
+/-- `0 - ((-(r1 + 5) + 7) + x)`, the operand of `MOVS r0, 0 - ((-(r1 + 5) + 7) + x)` -/
+def exTower : Arg :=
+  .bin .sub (.const 0)
+    (.bin .add (.bin .add (.neg (.bin .add (.ident [114, 49]) (.const 5))) (.const 7)) (.ident [120]))
+
+/-- the exact TREE-level condition is not NECESSARY for equal bytes, which is why the full statement needs a proof
+about normal forms rather than a larger side condition: in `MOVS r0, 0 - ((-(r1 + 5) + 7) + x)` the first attempt
+completes `-(r1 + 5) + 7` to `-(r1 - 2)`, which is NOT a fixed point of `evaluate` (the retry turns it into `2 - r1`),
+and with `x = -2` defined below or above both paths still end in the register `r1` (checked on the real assembler too:
+both orders emit `08 00`, `MOVS r0, r1`). -/
+example :
+    evalIn [] exTower = .ok (.noSuch [120]
+      (.bin .sub (.const 0) (.bin .add (.neg (.bin .sub (.ident [114, 49]) (.const 2))) (.ident [120])))) ∧
+    evalIn [([120], some (-2))] (.neg (.bin .sub (.ident [114, 49]) (.const 2))) =
+      .ok (.complete (.bin .sub (.const 2) (.ident [114, 49]))) ∧
+    evalIn [([120], some (-2))]
+      (.bin .sub (.const 0) (.bin .add (.neg (.bin .sub (.ident [114, 49]) (.const 2))) (.ident [120]))) =
+      .ok (.complete (.ident [114, 49])) ∧
+    evalIn [([120], some (-2))] exTower = .ok (.complete (.ident [114, 49])) ∧
+    ¬ LeftStableArg [] [([120], some (-2))] exTower := by
+  refine ⟨rfl, rfl, rfl, rfl, fun h => ?_⟩
+  unfold LeftStableArg exTower at h
+  simp only [Simp.LeftStable] at h
+  obtain ⟨_, ⟨_, _, h3⟩, _⟩ := h
+  have h0 : Simp.evaluateE (fun n => Table.get [] n) Front.isRegister
+      (.bin .add (.neg (.bin .add (.ident [114, 49]) (.const 5))) (.const 7)) =
+      .ok ⟨true, none⟩ (.neg (.bin .sub (.ident [114, 49]) (.const 2))) := rfl
+  have h1 : Simp.evaluateE (fun n => Table.get [] n) Front.isRegister (.ident [120]) = .nosuch [120] (.ident [120]) := rfl
+  obtain ⟨ev, he, _⟩ := h3 _ _ _ _ h0 h1
+  have h2 : Simp.evaluateE (fun n => Table.get [([120], some (-2))] n) Front.isRegister
+      (.neg (.bin .sub (.ident [114, 49]) (.const 2))) =
+      .ok ⟨true, none⟩ (.bin .sub (.const 2) (.ident [114, 49])) := rfl
+  rw [h2] at he
+  cases he
+
+end Trion.Asm
